@@ -404,6 +404,11 @@ func (conn *Conn) read(ctx *Context, async bool) {
 					return
 				}
 			} else if u.Stream == openStream {
+				// The acknowledgement: from here on frames with this number
+				// are stream messages. The switch is made by the reader itself
+				// so that a message following the acknowledgement closely is
+				// not taken for a second acknowledgement.
+				u.Stream = streaming
 				call.done()
 			}
 			conn.bufferPool.PutBuffer(ctx.buffer)
